@@ -340,6 +340,148 @@ def clone_config(rep, prog, rule):
     rep.floor(rule, "configuration fields of Resizer", n, 2)
 
 
+def _param_atoms(e, acc=None):
+    acc = set() if acc is None else acc
+    if isinstance(e, tuple) and e:
+        if e[0] == "param":
+            acc.add(e)
+        for x in e:
+            if isinstance(x, tuple):
+                _param_atoms(x, acc)
+    return acc
+
+
+def _cache_discipline(prog, f, pidx, state_fields):
+    """f takes `&mut T` as parameter pidx; T carries state between calls in `state_fields`
+    (None = every field). Returns (verdict, text): the values written to the state depend on
+    parameters that the paths which keep the old state never compared."""
+    sym = Sym(f)
+    nblk = len(f.blocks)
+    mut_refs = {}           # local -> field name (a `&mut (*p).field` borrow)
+    writes = {}             # block -> set of parameter atoms the written values depend on
+    me = ("param", pidx, f.local_name(pidx))
+
+    def is_state(place):
+        if not (isinstance(place, list) and len(place) >= 3 and place[0] == pidx and place[1] == "*"):
+            return None
+        fld = place[2]
+        if isinstance(fld, list) and fld[0] == "f":
+            if state_fields is None or fld[2] in state_fields:
+                return fld[2]
+        return None
+    for b, blk in enumerate(f.blocks):
+        if blk["c"]:
+            continue
+        for j, st in enumerate(blk["s"]):
+            if st[0] != "a":
+                continue
+            if st[2][0] == "ref" and st[2][1] == "mut" and is_state(st[2][2]):
+                mut_refs[st[1][0]] = is_state(st[2][2])
+            if is_state(st[1]):
+                deps = _param_atoms(sym.rvalue(st[2], b, (b, j))) - {me}
+                writes.setdefault(b, set()).update(deps)
+    for c in f.calls():
+        hit = False
+        for a in c.args:
+            if a[0] in ("m", "c") and len(a[1]) == 1 and a[1][0] in mut_refs:
+                hit = True
+        if hit:
+            deps = set()
+            for a in c.args:
+                deps |= _param_atoms(sym.operand(a, (c.bb, "term")))
+            writes.setdefault(c.bb, set()).update(deps - {me})
+    if not writes:
+        return None
+    # paths entry -> return that avoid every writing block
+    W = set(writes)
+    succ = f.succ
+    reach = set()
+    stack = [0] if 0 not in W else []
+    while stack:
+        b = stack.pop()
+        if b in reach or b in W or f.blocks[b]["c"]:
+            continue
+        reach.add(b)
+        stack += list(succ[b])
+    rets = [b for b in reach if f.blocks[b]["t"] and f.blocks[b]["t"][0] == "ret"]
+    deps = set().union(*writes.values())
+    if not rets:
+        return ("ok", "the state is rewritten on every path (from %s)" % sorted(a[2] or "_" for a in deps))
+    # blocks of the avoiding sub-graph that can reach a return inside it
+    back = set()
+    stack = list(rets)
+    pred = f.pred
+    while stack:
+        b = stack.pop()
+        if b in back or b not in reach:
+            continue
+        back.add(b)
+        stack += list(pred[b])
+    keys = set()
+    for b in back:
+        tt = f.blocks[b]["t"]
+        if tt and tt[0] == "sw":
+            keys |= _param_atoms(sym.operand(tt[1], (b, "term")))
+    keys -= {me}
+    missing = deps - keys
+    names = lambda s: sorted(a[2] or "_%d" % a[1] for a in s)
+    if missing:
+        return ("bad", "the values written to the kept state depend on %s, but the paths that keep the "
+                "old state only test %s: %s of an earlier call survives into this one"
+                % (names(deps), names(keys), names(missing)))
+    return ("ok", "state rebuilt from %s; kept only when %s are unchanged" % (names(deps), names(keys)))
+
+
+def state_fields(rep, prog, rule):
+    rep.rule(rule, "what a Resizer keeps between calls is the selected back-end (cpu_extensions, mul_div) "
+             "and three byte buffers that are overwritten before they are read (C09.write-before-read); "
+             "any other field is state that a later call can observe: where a function rebuilds such "
+             "state only under a condition (a cache), every parameter the rebuilt value depends on must be "
+             "tested on the paths that keep the old value; a parameter that is not (the cached table then "
+             "belongs to an earlier call's arguments) is a violation, other uses of extra state are undecided")
+    adt = [k for k in prog.adts if k.endswith("resizer::Resizer")]
+    if len(adt) != 1:
+        rep.unk(rule, "Resizer|fields", "", "struct Resizer not found")
+        return
+    fields = prog.adts[adt[0]]["variants"][0]["fields"]
+    extra = []
+    n = 0
+    for fl in fields:
+        name, ty = fl[0], str(fl[1])
+        n += 1
+        if ty in ("cpu_extensions::CpuExtensions", "mul_div::MulDiv"):
+            rep.ok(rule, "Resizer.%s" % name, "", "selected back-end")
+        elif ty == "std::vec::Vec<u8>":
+            rep.ok(rule, "Resizer.%s" % name, "", "scratch bytes, written before read")
+        else:
+            extra.append((name, ty))
+    rep.floor(rule, "fields of Resizer", n, 5)
+    for name, ty in extra:
+        found = False
+        bare = ty.split("<")[0]
+        for f in sorted(prog.fns.values(), key=lambda x: x.id):
+            for pi in range(1, f.arg_count + 1):
+                pty = f.local_ty(pi) or ""
+                if pty.startswith("&mut ") and pty[5:].split("<")[0] == bare:
+                    r = _cache_discipline(prog, f, pi, None)
+                elif pty.startswith("&mut ") and pty[5:].split("<")[0].endswith("resizer::Resizer"):
+                    r = _cache_discipline(prog, f, pi, {name})
+                else:
+                    continue
+                if r is None:
+                    continue
+                found = True
+                rep.touch(f)
+                key = "Resizer.%s|%s" % (name, f.name)
+                if r[0] == "bad":
+                    rep.bad(rule, key + "|stale", f.loc, "%s: %s" % (f.name, r[1]))
+                else:
+                    rep.ok(rule, key, f.loc, r[1])
+        if not found:
+            rep.unk(rule, "Resizer.%s" % name, "", "field of type %s is kept between calls; no function "
+                    "that rebuilds it was recognised" % ty)
+
+
 def run(rep, tier):
     cfgs = ["x86"] if tier == "quick" else ["x86", "x86-rayon", "arm", "wasm"]
     for cfg, prog in programs(cfgs):
@@ -349,4 +491,5 @@ def run(rep, tier):
         rep.call(sizing, rep, prog, "C09.sizing")
         rep.call(state_independence, rep, prog, "C09.state-independence")
         rep.call(clone_config, rep, prog, "C09.clone-config")
+        rep.call(state_fields, rep, prog, "C09.state-fields")
         rep.call(index_rules.scratch_grow, rep, prog, "C09.scratch-grow")
